@@ -69,9 +69,32 @@ def snap_args(kwargs):
     return out
 
 
-def execute(spec, P, fault=None, observe=False, stride=1):
-    """Run one call.  fault = None | {"event": k, "kind": ...}.
-    Returns dict(outcome, n_events, names, diffs, transient, fired, swallowed)."""
+_TRACE_OK = {}
+
+
+def _traced_file(fn):
+    """Library source files whose executed lines are crash points (not tests, not the dispatch shims)."""
+    ok = _TRACE_OK.get(fn)
+    if ok is None:
+        from . import core
+
+        root = os.path.join(core.REPO, "tensorly") + os.sep
+        ok = (
+            fn.startswith(root)
+            and (os.sep + "tests" + os.sep) not in fn
+            and not fn.endswith(os.path.join("backend", "__init__.py"))
+            and not fn.endswith(os.path.join("tenalg", "__init__.py"))
+        )
+        _TRACE_OK[fn] = ok
+    return ok
+
+
+def execute(spec, P, fault=None, observe=False, stride=1, line_fault=None, line_observe=False):
+    """Run one call.  fault = None | {"event": k, "kind": ...} (backend-call crash point);
+    line_fault = k raises a KeyboardInterrupt at the k-th executed source line of library code;
+    line_observe compares the arguments with their pre-call state at every executed line.
+    Returns dict(outcome, n_events, names, diffs, transient, fired, swallowed, n_lines, transient_lines)."""
+    import sys
     import warnings
 
     call, g = build(spec, P)
@@ -99,6 +122,30 @@ def execute(spec, P, fault=None, observe=False, stride=1):
             raise exc
         return None
 
+    lines = {"n": 0, "transient": [], "where": None}
+    tracing = line_observe or line_fault is not None
+    if tracing:
+        watch = snapshot.FastWatch(kwargs) if line_observe else None
+        sig0 = watch.sig() if watch else None
+
+        def ltrace(frame, event, arg):
+            if event == "line":
+                lines["n"] += 1
+                k = lines["n"]
+                if watch is not None and watch.sig() != sig0:
+                    lines["transient"].append(k)
+                if k == line_fault:
+                    state["fired"] = (k, "line:%s:%d" % (os.path.basename(frame.f_code.co_filename), frame.f_lineno), "KeyboardInterrupt@line")
+                    exc = proxy.SimInterrupt(f"injected at executed line {k}")
+                    state["exc"] = exc
+                    raise exc
+            return ltrace
+
+        def gtrace(frame, event, arg):
+            if event == "call" and _traced_file(frame.f_code.co_filename):
+                return ltrace
+            return None
+
     outcome = "returned"
     # the global NumPy RNG is part of the simulated environment: every execution of a
     # workload starts from the same global state, so entry points that (rightly or wrongly)
@@ -112,7 +159,13 @@ def execute(spec, P, fault=None, observe=False, stride=1):
         with warnings.catch_warnings():
             warnings.simplefilter("ignore")
             with np.errstate(all="ignore"), contextlib.redirect_stdout(_DEVNULL):
-                call["fn"](**kwargs)
+                if tracing:
+                    sys.settrace(gtrace)
+                try:
+                    call["fn"](**kwargs)
+                finally:
+                    if tracing:
+                        sys.settrace(None)
     except BaseException as ex:  # includes the injected KeyboardInterrupt
         if isinstance(ex, HarnessError):
             raise
@@ -128,7 +181,8 @@ def execute(spec, P, fault=None, observe=False, stride=1):
     after = snap_args(kwargs)
     diffs = snapshot.diff(before, after, exempt)
     swallowed = state["exc"] is not None and outcome == "returned"
-    return dict(outcome=outcome, n_events=n, names=names, diffs=diffs, transient=transient, fired=state["fired"], swallowed=swallowed, tags=list(g.fp_tags))
+    return dict(outcome=outcome, n_events=n, names=names, diffs=diffs, transient=transient, fired=state["fired"], swallowed=swallowed, tags=list(g.fp_tags),
+                n_lines=lines["n"], transient_lines=lines["transient"])
 
 
 def crash_points(n, transient, rng, tier):
@@ -149,6 +203,21 @@ def crash_points(n, transient, rng, tier):
     k = 40 if tier == "quick" else 600
     pts.update(rng.sample(range(1, n + 1), min(n, k)))
     return sorted(pts), False
+
+
+def line_points(n, transient, rng, tier):
+    """Executed-line indices at which to raise a KeyboardInterrupt."""
+    if n <= 0:
+        return []
+    pts = set()
+    tr = sorted(transient)
+    edges = [k for i, k in enumerate(tr) if i == 0 or tr[i - 1] != k - 1 or i + 1 == len(tr) or tr[i + 1] != k + 1]
+    pts.update(edges[:40])
+    if tr:
+        pts.update(rng.sample(tr, min(len(tr), 20)))
+    k = 10 if tier == "quick" else 200
+    pts.update(rng.sample(range(1, n + 1), min(n, k)))
+    return sorted(pts)
 
 
 def run_workload(spec, P, rng, tier, cnt):
@@ -202,8 +271,39 @@ def run_workload(spec, P, rng, tier, cnt):
                 (fp, f"{spec['entry']}: argument {path} {kind} after fault {r['fired'][2]} at backend event {k} ({r['fired'][1]}); call {r['outcome']}",
                  dict(spec, fault={"event": k, "kind": r["fired"][2]}))
             )  # fmt: skip
-    dg = digest_obj([spec["entry"], spec["choices"], spec.get("tenalg"), spec.get("dtype"), n, base["names"], base["transient"], base["outcome"], outcomes])
-    return viols, dg, n, len(pts)
+    # ---- second crash-point space: every executed source line of library code (a KeyboardInterrupt
+    # can arrive between any two lines, also where no backend call is made: operators, slicing, np.*)
+    lbase = execute(spec, P, line_observe=True)
+    cnt.inc("executions")
+    cnt.inc("library_lines_executed", lbase["n_lines"])
+    if lbase["transient_lines"]:
+        cnt.inc("probe:workloads_with_transient_modification_at_line_level")
+    lpts = line_points(lbase["n_lines"], lbase["transient_lines"], rng, tier)
+    louts = []
+    for k in lpts:
+        r = execute(spec, P, line_fault=k)
+        cnt.inc("executions")
+        if r["fired"] is None:
+            raise HarnessError(f"line fault {k} of {spec['entry']} did not fire (lines={lbase['n_lines']}): nondeterministic line stream")
+        cnt.inc("line_crash_points")
+        cnt.inc("fault:KeyboardInterrupt@line")
+        if r["swallowed"]:
+            cnt.inc("probe:fault_swallowed_by_library_and_call_returned")
+        if k in lbase["transient_lines"]:
+            cnt.inc("probe:crash_inside_transient_window")
+        louts.append((k, r["outcome"], len(r["diffs"])))
+        for path, kind in r["diffs"]:
+            fp = fingerprint(spec["entry"], path, kind, r["tags"])
+            if fp in seen_fp:
+                continue
+            seen_fp.add(fp)
+            viols.append(
+                (fp, f"{spec['entry']}: argument {path} {kind} after KeyboardInterrupt at executed library line {k} ({r['fired'][1]}); call {r['outcome']}",
+                 dict(spec, fault={"line": k, "kind": "KeyboardInterrupt@line"}))
+            )  # fmt: skip
+    dg = digest_obj([spec["entry"], spec["choices"], spec.get("tenalg"), spec.get("dtype"), n, base["names"], base["transient"], base["outcome"], outcomes,
+                     lbase["n_lines"], lbase["transient_lines"], louts])
+    return viols, dg, n, len(pts) + len(lpts)
 
 
 def gen_spec(rng, r, ents):
@@ -265,6 +365,13 @@ def digests(seed, lo, hi):
 # ------------------------------------------------------------------ minimise / replay
 
 
+def exec_fault(spec, P, fault, observe=False):
+    """Execute with a replay-file fault description (backend event, executed line, or none)."""
+    if fault and "line" in fault:
+        return execute(spec, P, line_fault=fault["line"], observe=observe)
+    return execute(spec, P, fault=fault, observe=observe)
+
+
 def _reproduces(spec, fp, P):
     """Find a fault (or none) under which `spec` shows fingerprint fp. Returns spec+fault or None."""
     try:
@@ -276,10 +383,10 @@ def _reproduces(spec, fp, P):
             return dict(spec, fault=None)
     cands = []
     f0 = spec.get("fault")
-    if f0:
+    if f0 and "event" in f0:
         cands.append(f0["event"])
     cands += [k for k in base["transient"] if k not in cands][:80]
-    if not cands and base["n_events"] <= 200 and f0:
+    if not cands and base["n_events"] <= 200 and f0 and "event" in f0:
         cands = list(range(1, base["n_events"] + 1))
     for k in cands:
         if k < 1 or k > base["n_events"]:
@@ -288,6 +395,19 @@ def _reproduces(spec, fp, P):
         for path, kind in r["diffs"]:
             if fingerprint(spec["entry"], path, kind, r["tags"]) == fp:
                 return dict(spec, fault={"event": k, "kind": r["fired"][2]})
+    # executed-line crash points
+    lbase = execute(spec, P, line_observe=True)
+    lc = []
+    if f0 and "line" in f0:
+        lc.append(f0["line"])
+    lc += [k for k in lbase["transient_lines"] if k not in lc][:60]
+    for k in lc:
+        if k < 1 or k > lbase["n_lines"]:
+            continue
+        r = execute(spec, P, line_fault=k)
+        for path, kind in r["diffs"]:
+            if fingerprint(spec["entry"], path, kind, r["tags"]) == fp:
+                return dict(spec, fault={"line": k, "kind": "KeyboardInterrupt@line"})
     return None
 
 
@@ -350,7 +470,7 @@ def describe(spec, P):
 
 def make_replay(spec, fp, seed, run_idx):
     P = proxy.get()
-    r = execute(spec, P, fault=spec.get("fault"), observe=True)
+    r = exec_fault(spec, P, spec.get("fault"), observe=True)
     fps = sorted(fingerprint(spec["entry"], p, k, r["tags"]) for p, k in r["diffs"])
     return {
         "property": PROP,
@@ -358,7 +478,8 @@ def make_replay(spec, fp, seed, run_idx):
         "run": run_idx,
         "oracle": fp,
         "violation": f"{spec['entry']}: caller-owned argument(s) changed: {r['diffs']} ; call {r['outcome']}"
-        + (f" after injected {spec['fault']['kind']} at backend event {spec['fault']['event']}" if spec.get("fault") else " (fault-free)"),
+        + (f" after injected {spec['fault']['kind']} at {'executed library line' if 'line' in spec['fault'] else 'backend event'} "
+           f"{spec['fault'].get('line', spec['fault'].get('event'))} ({r['fired'][1] if r['fired'] else '?'})" if spec.get("fault") else " (fault-free)"),
         "entry": spec["entry"],
         "choices": spec["choices"],
         "seed": spec.get("seed", 0),
@@ -383,7 +504,7 @@ def replay_file(path):
         rp = json.load(f)
     P = proxy.get()
     spec = {"entry": rp["entry"], "choices": rp["choices"], "seed": rp["seed"], "fault": rp["fault"], "tenalg": rp.get("tenalg", "core"), "dtype": rp.get("dtype", "float64")}
-    r = execute(spec, P, fault=rp["fault"], observe=True)
+    r = exec_fault(spec, P, rp["fault"], observe=True)
     fps = sorted(fingerprint(spec["entry"], p, k, r["tags"]) for p, k in r["diffs"])
     dg = digest_obj([r["names"], r["outcome"], [list(d) for d in r["diffs"]]])
     dg2 = digest_obj([r["names"], r["outcome"], r["diffs"]])
@@ -400,10 +521,11 @@ THOROUGH_S = 1200
 DET_RUNS = 30
 SETS = ("distinct",)
 ASSUMPTIONS = [
-    "fault points are the backend calls made by library code through tl.* dispatch (and simulator-supplied callbacks): a subset of all instructions",
+    "fault points are (a) the backend calls made by library code through tl.* dispatch and simulator-supplied callbacks, (b) executed source lines of the library's own files (KeyboardInterrupt raised from a sys.settrace line event); interrupts inside one line or inside C code are out of reach",
     "argument values are compared by value, bit for bit, including the bytes of the ultimate base buffer of every array view; object identity is not compared",
     "documented in-place parameters are exempt: cp_mode_dot/tucker_mode_dot(copy=False), the V start matrix of hals_nnls",
-    "workloads are a seeded sample over the catalogue x argument kinds x options; per workload the crash-point space is enumerated completely when it has <= 150 (quick) / 1500 (thorough) events, otherwise sampled (head, tail, seeded, plus every point flagged by the observation pass)",
+    "workloads are a seeded sample over the catalogue x argument kinds x options; per workload the backend-call crash-point space is enumerated completely when it has <= 150 (quick) / 1500 (thorough) events, otherwise sampled (head, tail, seeded, plus every point flagged by the observation pass); source-line crash points are always a sample (window edges + interior sample + 10/200 seeded lines)",
+    "the per-line observation uses adler32 checksums; a collision can only hide a transient window from the observation pass, never change a verdict (verdicts use full byte-level diffs)",
     "C15 has no schedule in its quantifier: concurrent sharing of inputs between threads is deliberately not explored",
 ]
 COMPONENTS = {
@@ -423,7 +545,10 @@ def coverage(agg, wall):
         "distinct_nontrivial counts distinct workloads (entry, recorded choice sequence, seed) - each is executed once fault-free "
         "and once per enumerated crash point; a workload is non-trivial because every one makes at least one library call on generated arguments",
         "workloads": cnt.get("runs", 0),
-        "crash_points_injected": cnt.get("crash_points", 0),
+        "crash_points_injected": cnt.get("crash_points", 0) + cnt.get("line_crash_points", 0),
+        "backend_call_crash_points": cnt.get("crash_points", 0),
+        "source_line_crash_points": cnt.get("line_crash_points", 0),
+        "library_lines_executed_fault_free": cnt.get("library_lines_executed", 0),
         "workloads_crash_points_exhaustive": cnt.get("workloads_exhaustive", 0),
         "workloads_crash_points_sampled": cnt.get("workloads_sampled", 0),
         "backend_events_fault_free": cnt.get("backend_events", 0),
